@@ -48,7 +48,7 @@ def snapshot(root):
                     txt = b.decode('utf-8')
                 except UnicodeDecodeError:
                     txt = None
-            files[r] = txt if txt is not None else '#' + h[:12]
+            files[r] = txt if txt is not None else '@@sha1:' + h[:12]
     return {'files': files, 'sha': sha, 'dirs': sorted(dirs)}
 
 
@@ -190,7 +190,7 @@ def run_case(work, idx, case, keep=False):
         facts, conv = {}, {}
         for root in ('', 'tally/'):
             sp = root + 'config/settings.yaml'
-            if sp in pre['files'] and not pre['files'][sp].startswith('#'):
+            if sp in pre['files'] and not pre['files'][sp].startswith('@@sha1:'):
                 facts[sp] = settings_facts(pre['files'][sp])
             elif sp in pre['files']:
                 facts[sp] = {'unmodelled': True}
